@@ -74,13 +74,39 @@ impl TreeGen {
     }
 
     fn gen_children(&mut self, rng: &mut Rng, depth: usize, forbidden: &[Vec<u8>]) -> Vec<Spec> {
+        self.gen_children_opt(rng, depth, forbidden, true)
+    }
+
+    fn gen_children_opt(&mut self, rng: &mut Rng, depth: usize, forbidden: &[Vec<u8>], allow_default: bool) -> Vec<Spec> {
         let n = 1 + rng.usize(self.max_fanout);
         let mut out: Vec<Spec> = Vec::new();
         // default child first (documented requirement of the library)
-        let want_default = if depth > 0 { rng.chance(1, 2) } else { rng.chance(1, 3) };
+        let want_default = allow_default && if depth > 0 { rng.chance(1, 2) } else { rng.chance(1, 3) };
+        // `Branch!(name => handler; children...)` shape of the library's own macro and test tree: the branch's own
+        // handler is an anonymous default leaf, and a default *branch* may follow it (CONFigure => h; [SCALar]...).
+        // SCPI designates exactly one node as long as nothing below that default branch is reachable without
+        // being named, so its first level gets no default child.
+        let own_handler_then_default_branch = want_default && depth > 0 && depth < self.max_depth && rng.chance(1, 3);
         let mut tries = 0;
-        while out.len() < n && tries < 60 {
+        while out.len() < n.max(if own_handler_then_default_branch { 2 } else { 1 }) && tries < 60 {
             tries += 1;
+            if own_handler_then_default_branch && out.len() < 2 {
+                if out.is_empty() {
+                    let h = self.next_handler;
+                    self.next_handler += 1;
+                    out.push(Spec { name: vec![], default: true, kind: SpecKind::Leaf(h) });
+                } else {
+                    let name = gen_name(rng);
+                    if self.unambiguous && forbidden.iter().any(|o| ambiguous_pair(o, &name)) {
+                        continue;
+                    }
+                    let mut forb: Vec<Vec<u8>> = forbidden.to_vec();
+                    forb.push(name.clone());
+                    let sub = self.gen_children_opt(rng, depth + 1, &forb, false);
+                    out.push(Spec { name, default: true, kind: SpecKind::Branch(sub) });
+                }
+                continue;
+            }
             let is_default = want_default && out.is_empty();
             let make_branch = (depth < self.max_depth && rng.chance(if depth == 0 { 3 } else { 2 }, 5)) || (depth == 0 && is_default);
             let name = if is_default && !make_branch && rng.chance(1, 4) {
